@@ -80,6 +80,9 @@ func AnalyseScript(mc *ModelCache) *ScriptReach {
 	prevTerm := 0
 	start := 0
 	for start < len(in) {
+		if len(sr.Lines) >= 120 {
+			break // reach accounting only: bounded so that huge scripts do not cost a model run per line
+		}
 		end := start
 		for end < len(in) && in[end] != '\n' {
 			end++
